@@ -2,7 +2,7 @@ import TracklibVerif.Lemmas.GraphTable
 /-! Lemmas for C07: the predecessor structure (`antecedent`, `antecedent_edge`) left by the forward pass is
 tight and well-founded; `run_routing_backward` walks it to the source and chains the edge polylines. -/
 namespace TV.Graph
-variable {W : Type} [AddCommMonoid W] [LinearOrder W] [IsOrderedAddMonoid W]
+variable {W : Type} [LinearOrder W] [Add W] [Zero W] [WalkAdd W]
 
 /-! ### what relaxation does to the predecessor pointers -/
 
@@ -171,7 +171,7 @@ theorem settle_pinv (net : Net W) (hnet : WFNet net) (s : Nat) (st : St W) (rk :
           have : e ∈ net.edges := by simp only [nextEdges, List.mem_filter] at he; exact he.1
           exact (hnet e this).2.2
         have := h5 0 hinv.j1
-        exact absurd (lt_of_le_of_lt (add_nonneg (hinv.j7 u du hud) hw) this) (lt_irrefl _)
+        exact absurd (lt_of_le_of_lt (le_trans (hinv.j7 u du hud) (WalkAdd.le_add_right _ _ hw)) this) (lt_irrefl _)
   · -- p2
     intro v a i hpv
     rcases q2 v a i hpv with ⟨h, hd⟩ | ⟨rfl, hva, e, he, h1, h2, h3, h4, _⟩
